@@ -124,8 +124,12 @@ def make_scenario(backend, hname, emb, auth):
     cfg = {}
     if auth:
         cfg["authentication"] = {"enabled": True, "actions": {"save": "a", "query": "a"}, "relay_urls": ["ws://r"]}
+    so = {"stats_interval": 1e15}
+    if emb in ("mid", "then_drop") and backend == "sql":
+        # one slot of every pooled resource: a single leaked slot (query / add semaphore) wedges the probes that follow
+        so.update({"num_concurrent_reqs": 1, "num_concurrent_adds": 1})
     return Scenario("%s|%s|%s|auth=%d" % (hname, emb, backend, auth), backend, [("c1", "1.1.1.1"), ("c2", "2.2.2.2")], full, config=cfg,
-                    storage_options={"stats_interval": 1e15}, setup=_setup, horizon=400.0, allow_timer_deviation=False)
+                    storage_options=so, setup=_setup, horizon=400.0, allow_timer_deviation=False)
 
 
 SUBSET = ["EVENT.tags=[[e,9]]", "REQ.#e=[9]", "REQ,sid,9", "EVENT,12", "txt_deep", "EVENT.kind=7", "REQ.ids=[7]", "CLOSE,12", "txt_nan", "EVENT.id=0",
